@@ -421,6 +421,7 @@ func c12SrcFailure(reads int) error {
 
 // c12Src is an upload source: `reads` chunks, then EOF or an error; counts its Close calls.
 type c12Src struct {
+	slowClose  bool
 	failedOnce bool
 	spec       c12SrcSpec
 	closeErr   bool // an upload file (not the stream payload, whose Close failure GetBody reports)
@@ -453,6 +454,9 @@ func (s *c12Src) Read(p []byte) (int, error) {
 // Close counts; every other source reports a failure of its Close (a stale handle, a file closed twice):
 // releasing the remaining files must not depend on it.
 func (s *c12Src) Close() error {
+	if s.slowClose {
+		time.Sleep(15 * time.Millisecond) // a file whose Close takes its time (a network file system flushing)
+	}
 	atomic.AddInt32(&s.closes, 1)
 	if s.closeErr && s.spec.reads%2 == 1 {
 		return errC12Close
@@ -804,7 +808,7 @@ func c12ExecF(in []string) []string {
 
 	var files []*c12Src
 	for _, f := range p.files {
-		files = append(files, &c12Src{spec: f, closeErr: true})
+		files = append(files, &c12Src{spec: f, closeErr: true, slowClose: c10Pick(in, 8) == 3})
 	}
 	var stream *c12Src
 	if p.payload == 's' {
@@ -1072,6 +1076,11 @@ func c12ExecF(in []string) []string {
 		}
 	}
 	t1 := time.Now()
+	// what is closed the moment the call returns (a successful call has closed every file by then)
+	closedAtReturn := make([]int32, len(files))
+	for i, f := range files {
+		closedAtReturn[i] = atomic.LoadInt32(&f.closes)
+	}
 
 	// let the call settle: the writer goroutine may still be on its way out
 	left := 0
@@ -1101,7 +1110,11 @@ func c12ExecF(in []string) []string {
 	if len(files) > 0 {
 		parts := make([]string, len(files))
 		for i, f := range files {
-			parts[i] = strconv.Itoa(int(atomic.LoadInt32(&f.closes)))
+			n := atomic.LoadInt32(&f.closes)
+			if kind == "ok" && !p.real && !hung {
+				n = closedAtReturn[i] // "every file handed over for upload has been closed" when the call returns
+			}
+			parts[i] = strconv.Itoa(int(n))
 		}
 		fc = strings.Join(parts, ",")
 	}
